@@ -16,6 +16,7 @@ PID, SEL = "C06", 6
 
 ASSUMPTIONS = [
     "exhaustive scope: containers of <= 3 elements over {0,1,2} (List[int], Set[int]; Dict[str,int] with keys '', 'a7', 'a8'; List[str] over those strings) x with_/update_/transform_/without_<item> x _index in [-len-1, len+1] x _insert x _by_index in {default, True, False} x keys/values present and absent, container present or missing (quick tier: a seeded sample of the enumerated calls, thorough tier: all of them)",
+    "keyed spec elements: List[K1]/Dict[str,K1] with K1 keyed, attribute with and without an item preparer (identity), container missing / empty / one element: bare keys promoted by with_/update_<item> with and without keywords, _index, _insert (48 histories, both tiers)",
     "beyond the exhaustive scope: random containers of up to 8 elements edited by up to 8 consecutive calls (copy and in place), List/Dict of (keyed) spec classes with keywords, bare keys and dict-as-arguments from the shared history grammar (conforming arguments)",
     "KeyedList/KeyedSet-typed attributes are outside the instance model (their container semantics are C13/C14)",
     "interpretation: transform_<item>(f) stores f(old) (not run through the item preparer); update_<item>(target) without a new value leaves the element; with_<item>(_index=i) on an absent index is an IndexError unless _insert; a bool _index counts as an integer",
@@ -30,6 +31,8 @@ def main(tier, replay=None):
     rng = chk.rng
     quick = tier == "quick"
     cases, stats = g6.exhaustive(tier, rng)
+    keyed = g6.keyed_elements(tier, rng)
+    cases += keyed
     n_exh = len(cases)
     n_chain = 200 if quick else 1500
     for _ in range(n_chain):
@@ -52,7 +55,7 @@ def main(tier, replay=None):
     distinct = len({json.dumps((c["table"], c["ops"]), sort_keys=True, default=str) for c in cases})
     extra = {
         "correspondence": {"cases": len(cases), "operations": n_ops,
-                           "exhaustive_cases": n_exh, "random_chain_cases": n_chain, "spec_element_cases": n_spec,
+                           "exhaustive_cases": n_exh, "keyed_element_cases": len(keyed), "random_chain_cases": n_chain, "spec_element_cases": n_spec,
                            "spec_violations": sum(1 for _, c, _ in bad if c == 2),
                            "model_only_disagreements": sum(1 for _, c, _ in bad if c == 1),
                            "op_histogram": ophist, "addressing_mode_histogram": modes,
